@@ -200,6 +200,14 @@ def relations(test, pol: bool, symf):
     `pol`.  `not (A and B and cmp)` yields cmp negated, conditional on the enabling conjuncts."""
     out = []
     for e, p in atoms(test, pol):
+        if isinstance(e, ast.Compare) and len(e.ops) > 1 and p:
+            # a <= b <= c holds: every adjacent pair holds
+            terms = [e.left] + list(e.comparators)
+            for a_, op_, b_ in zip(terms, e.ops, terms[1:]):
+                r = _rel_of_compare(ast.Compare(left=a_, ops=[op_], comparators=[b_]), True, symf)
+                if r is not None:
+                    out.append((r[0], r[1], r[2], [], r[3]))
+            continue
         r = _rel_of_compare(e, p, symf)
         if r is not None:
             out.append((r[0], r[1], r[2], [], r[3]))
@@ -308,6 +316,7 @@ def r2(ctx):
     pack = repo.fn("BitField.pack", HELPERS)
     t = Tracer(repo, pack.cls, None)
     acc: Dict[str, List[bool]] = {}
+    acc_low: Dict[str, List[bool]] = {}
 
     def shook(stmt, st, fr):
         if not (isinstance(stmt, ast.AugAssign) and isinstance(stmt.op, ast.BitOr)):
@@ -321,6 +330,7 @@ def r2(ctx):
             return
         branch = ",".join(sorted(f"{v[2]}={v[0]}" for v in st.pc.values() if SPEC_PATH.fullmatch(v[2])))
         ok = False
+        low = False
         for g in st.guards[st.gbase:]:
             gst = St()
             gst.env = g.env
@@ -329,12 +339,19 @@ def r2(ctx):
                     continue
                 lhs, rhs = node.left, node.comparators[0]
                 for a, asym, b, o in ((lhs, l, rhs, op), (rhs, r, lhs, _FLIP[op])):
+                    # non-negative: member >= 0 / member > -1, or member == member & mask (a mask has no sign)
+                    if asym in members and ((o == ">=" and isinstance(b, ast.Constant) and b.value == 0) or
+                                            (o == ">" and t.sym(b, gst, g.fr) in ("-1", "?UnaryOp")) or
+                                            (o == "==" and any(isinstance(x, ast.BinOp) and isinstance(x.op, ast.BitAnd)
+                                                               for x in ast.walk(b)))):
+                        low = True
                     # the bound must be computed (a mask), not the member itself or a literal
                     computed = any(not t.sym(n, gst, g.fr).startswith(("<param>", "<value>"))
                                    for n in ast.walk(b) if isinstance(n, ast.Name))
                     if asym in members and o in ("<=", "<", "==") and computed:
                         ok = True
         acc.setdefault(branch or "always", []).append(ok)
+        acc_low.setdefault(branch or "always", []).append(low)
     t.stmt_hooks.append(shook)
     t.run(pack)
     ctx.floor("C08.R2", "BitField.pack accumulate sites", len(acc), 1)
@@ -342,6 +359,10 @@ def r2(ctx):
         ctx.ob("C08.R2", f"helpers.BitField.pack [{branch}]: member value range-checked against its own mask "
                          f"(raise) before being OR-ed in", all(oks), pack.where,
                "an out-of-range member would spill into its neighbour's bits instead of being rejected")
+    for branch, lows in sorted(acc_low.items()):
+        ctx.ob("C08.R2", f"helpers.BitField.pack [{branch}]: member value checked to be non-negative (raise) before "
+                         f"being OR-ed in", all(lows), pack.where,
+               "a negative member sign-extends over every later member (val << n keeps the sign) instead of being rejected")
 
 
 def _child_is_guarded_fixed(repo, ci: ClassInfo, spec_sym: str) -> bool:
@@ -1428,27 +1449,41 @@ def _const_of_pad(node):
     return None
 
 
-def _writer_pads(repo, fns: List[FuncInfo], ci) -> Set[Tuple[str, object]]:
-    """(side, constant) for every padding / terminating concatenation on the writing side."""
+def _pad_is_repeated(node) -> bool:
+    return isinstance(node, ast.BinOp) and isinstance(node.op, ast.Mult)
+
+
+def _writer_pads(repo, fns: List[FuncInfo], ci, repeated: Optional[Set] = None) -> Set[Tuple[str, object]]:
+    """(side, constant) for every padding / terminating concatenation on the writing side; `repeated`
+    collects those that add the constant an arbitrary number of times (K * n, ljust, struct 's')."""
     out: Set[Tuple[str, object]] = set()
+    repeated = repeated if repeated is not None else set()
     for f in fns:
         for n in walk(f.node, into_defs=True):
             if isinstance(n, ast.AugAssign) and isinstance(n.op, ast.Add):
                 k = _const_of_pad(n.value)
                 if k is not None:
                     out.add(("right", k))
+                    if _pad_is_repeated(n.value):
+                        repeated.add(("right", k))
             elif isinstance(n, ast.BinOp) and isinstance(n.op, ast.Add):
                 kr, kl = _const_of_pad(n.right), _const_of_pad(n.left)
                 if kr is not None and kl is None:
                     out.add(("right", kr))
+                    if _pad_is_repeated(n.right):
+                        repeated.add(("right", kr))
                 if kl is not None and kr is None:
                     out.add(("left", kl))
+                    if _pad_is_repeated(n.left):
+                        repeated.add(("left", kl))
             elif isinstance(n, ast.Call) and isinstance(n.func, ast.Attribute):
                 if n.func.attr in ("ljust", "rjust") and len(n.args) >= 2 and _const_of_pad(n.args[1]) is not None:
                     out.add(("right" if n.func.attr == "ljust" else "left", _const_of_pad(n.args[1])))
+                    repeated.add(("right" if n.func.attr == "ljust" else "left", _const_of_pad(n.args[1])))
                 if n.func.attr == "pack" and (_struct_attr_truncates(repo, ci, "@." + (ap(n.func.value) or "").split(".")[-1])
                                               or (ap(n.func.value) == "struct" and n.args and _fmt_truncates(n.args[0]))):
                     out.add(("right", b"\x00"))
+                    repeated.add(("right", b"\x00"))
                 if n.func.attr in LOSSY_SAME:
                     out.add(("same", n.func.attr))
     return out
@@ -1500,9 +1535,16 @@ def r15(ctx):
         t.run(d, dp)
         if not found:
             continue
-        pads = _writer_pads(repo, _writer_scope(repo, s), ci)
+        repeated: Set = set()
+        pads = _writer_pads(repo, _writer_scope(repo, s), ci, repeated)
         for key, (m, k, where) in sorted(found.items()):
             n_sites += 1
+            if m in STRIPS and k not in (None, "?"):
+                # a strip removes every occurrence: fine against padding, too much against a single terminator
+                once = [side for side in STRIPS[m] if (side, k) in pads and (side, k) not in repeated]
+                ctx.ob("C08.R15", f"{label}.deserialize: {key} removes no more than the write side adds", not once, where,
+                       f"the write side appends {k!r} exactly once (and only under its own condition) but {m}() takes off "
+                       f"every trailing occurrence: a value that itself ends in {k!r} reads back shortened")
             if m in STRIPS:
                 ok = k not in (None, "?") and all((side, k) in pads or
                                                  any(sd == side and isinstance(pk, type(k)) and pk and set(pk) <= set(k)
@@ -1517,7 +1559,7 @@ def r15(ctx):
             ctx.ob("C08.R15", f"{label}.deserialize: {key} on stream data has a write-side counterpart", ok, where,
                    f"{why}: a value whose encoding ends/starts with the stripped bytes reads back shortened")
     ctx.stats["C08.R15.normalising calls on read paths"] = n_sites
-    ctx.floor("C08.R15", "normalising calls on read paths", n_sites, 2)
+    ctx.floor("C08.R15", "normalising calls on read paths", n_sites, 1)
 
 
 RE_FUNCS = {"compile", "search", "match", "fullmatch", "split", "sub", "subn", "findall", "finditer"}
@@ -1647,6 +1689,86 @@ def r17(ctx):
     ctx.floor("C08.R17", "marker-gated fields", n, 1)
 
 
+# ----------------------------------------------------------------------------- R18 / R19 / R20 (audit round)
+
+def r18(ctx):
+    repo = ctx.repo
+    ctx.rule("C08.R18", "a write path converts only its own level: encode / serialize never deep-converts or deep-copies "
+                        "the value (dataclasses.asdict, copy.deepcopy) - nested values belong to the child specs, and a "
+                        "deep conversion rebuilds lazily decoded (proxied) containers into unusable objects")
+    n = 0
+    for ci in _spec_classes(repo):
+        for name in ("encode", "serialize"):
+            m = ci.methods.get(name)
+            if m is None or is_abstract(m):
+                continue
+            n += 1
+            deep = [c for c in walk(m.node, into_defs=True) if isinstance(c, ast.Call)
+                    and (ap(c.func) or "").split(".")[-1] in ("asdict", "astuple", "deepcopy")]
+            ctx.ob("C08.R18", f"{_label(ci)}.{name}: no deep conversion / copy of the value being written", not deep,
+                   ctx.w(m, deep[0]) if deep else m.where,
+                   "; ".join(norm(c) for c in deep) + ": list / dict fields that are lazy proxies come out as "
+                   "Proxy(<generator>) and the value the reader returned can no longer be written")
+    ctx.floor("C08.R18", "encode / serialize methods", n, 60)
+
+
+def r19(ctx):
+    repo = ctx.repo
+    ctx.rule("C08.R19", "configuration reaches the codec: every constructor argument of a combinator is used for more "
+                        "than a `is None` test (an explicit value that is accepted and then ignored changes what the "
+                        "spec's domain is documented to be)")
+    n = 0
+    for ci in _spec_classes(repo):
+        init = ci.methods.get("__init__")
+        if init is None:
+            continue
+        a = init.node.args
+        for prm in (list(a.posonlyargs) + list(a.args))[1:] + list(a.kwonlyargs):
+            loads = [x for x in walk(init.node, into_defs=True) if isinstance(x, ast.Name) and x.id == prm.arg
+                     and isinstance(x.ctx, ast.Load)]
+            real = [x for x in loads if not (isinstance(parent(x), ast.Compare) and is_none_test(parent(x)) is not None)]
+            n += 1
+            ctx.ob("C08.R19", f"{_label(ci)}.__init__: argument {prm.arg} reaches the object", bool(real) or not loads and
+                   prm.arg.startswith("_"), ctx.w(init, prm),
+                   f"{prm.arg} is only ever compared with None" if loads else f"{prm.arg} is never read")
+    ctx.floor("C08.R19", "constructor arguments", n, 60)
+
+
+def _has_integrality_test(e) -> bool:
+    for x in ast.walk(e):
+        if isinstance(x, ast.Call) and ((isinstance(x.func, ast.Name) and x.func.id in ("round", "floor", "ceil", "int"))
+                                        or (isinstance(x.func, ast.Attribute) and x.func.attr in ("is_integer", "floor", "ceil", "modf"))):
+            return True
+        if isinstance(x, ast.BinOp) and isinstance(x.op, ast.Mod):
+            return True
+    return False
+
+
+def r20(ctx):
+    repo = ctx.repo
+    ctx.rule("C08.R20", "a half-step nudge in front of round() is conditional on the position not being integral: "
+                        "Python rounds ties to even, so 0.0 sitting exactly on a code would be written as a neighbour")
+    base = repo.cls("QuantizedFloatBase", SER)
+    n = 0
+    for ci in [base] + [c for c in repo.subclasses(base, strict=True)]:
+        for m in ci.methods.values():
+            rounds = [c for c in walk(m.node) if isinstance(c, ast.Call) and isinstance(c.func, ast.Name) and c.func.id == "round"]
+            if not rounds:
+                continue
+            for st in stores(m.node, into_defs=False):
+                if st.kind != "assign" or st.value is None:
+                    continue
+                half = [x for x in ast.walk(st.value) if isinstance(x, ast.Constant) and x.value == 0.5]
+                if not half or not any(isinstance(x, ast.BinOp) and isinstance(x.op, ast.Mult) for x in ast.walk(st.value)):
+                    continue
+                n += 1
+                ok = any(_has_integrality_test(e) for e, pol in facts(st.node, m.node))
+                ctx.ob("C08.R20", f"{ci.name}.{m.name}: half-step nudge {st.path} only when the position is not on a code",
+                       ok, ctx.w(m, st.node), "the nudge turns an exact code k into k + 0.5 and round() picks the even "
+                                              "neighbour: decode(k) == 0.0 but encode(0.0) == k + 1")
+    ctx.floor("C08.R20", "half-step nudges feeding round()", n, 1)
+
+
 def run(ctx):
     r1(ctx)
     r2(ctx)
@@ -1666,6 +1788,9 @@ def run(ctx):
     r15(ctx)
     r16(ctx)
     r17(ctx)
+    r18(ctx)
+    r19(ctx)
+    r20(ctx)
     ctx.assume("read(write(v)) == v over generated spec trees and values is not decided statically; branch "
                "conditions of the two directions are not compared (a flipped test is a value-level fault)")
     ctx.assume("comprehension / generator events are placed where the comprehension is written; closures returned "
